@@ -35,7 +35,15 @@ func need(b uint32, T float64, intervalMs int) int64 {
 
 var loaded *flow.Rule // the rule of the running case, as submitted
 
+// memFlip: for a memory-adaptive pacing rule, the memory reading and the effective threshold on the OTHER side of the water
+// marks (0 = the rule of the running case is not memory-adaptive)
+var memFlip struct {
+	mem int64
+	T   float64
+}
+
 func loadRule(t *rapid.T, T float64, ivMs, qMs int) {
+	memFlip.mem, memFlip.T = 0, 0
 	r := &flow.Rule{Resource: "t", TokenCalculateStrategy: flow.Direct, ControlBehavior: flow.Throttling, Threshold: T,
 		StatIntervalInMs: uint32(ivMs), MaxQueueingTimeMs: uint32(qMs)}
 	// the same pacing threshold expressed through the memory-adaptive strategy: with the memory reading pinned below the
@@ -50,11 +58,13 @@ func loadRule(t *rapid.T, T float64, ivMs, qMs int) {
 				r.TokenCalculateStrategy, r.Threshold = flow.Direct, T
 			} else {
 				system_metric.SetSystemMemoryUsage(500)
+				memFlip.mem, memFlip.T = 5000, T-1
 			}
 		case 2:
 			r.TokenCalculateStrategy, r.Threshold = flow.MemoryAdaptive, 0
 			r.LowMemUsageThreshold, r.HighMemUsageThreshold, r.MemLowWaterMarkBytes, r.MemHighWaterMarkBytes = int64(T)+5, int64(T), 1000, 2000
 			system_metric.SetSystemMemoryUsage(5000)
+			memFlip.mem, memFlip.T = 500, T+5
 		}
 	}
 	cp := *r
@@ -101,6 +111,20 @@ func TestSequential(t *testing.T) {
 					c.Op("reload: max queueing time now %d ms", q)
 					requeued = true
 				}
+			}
+			if memFlip.mem != 0 && rapid.IntRange(0, 5).Draw(t, "memoryCrossesTheMarks") == 2 {
+				// the memory reading crosses both water marks: from now on the rule paces at its other threshold; what was
+				// reserved so far stays reserved
+				system_metric.SetSystemMemoryUsage(memFlip.mem)
+				other := memFlip
+				if memFlip.mem == 5000 {
+					memFlip.mem, memFlip.T = 500, T
+				} else {
+					memFlip.mem, memFlip.T = 5000, T
+				}
+				T = other.T
+				c.Op("memory reading now %d: effective threshold %v", other.mem, T)
+				c.Class("memory-adaptive-threshold-changes-mid-history")
 			}
 			if rapid.IntRange(0, 7).Draw(t, "reload") == 3 {
 				// the rule set is reloaded with the pacing rule unchanged (a fresh, equal object) and something else different:
